@@ -12,10 +12,19 @@ EXPLANATION = (
     "starts[1..5] in order with `<` and divides by starts[scale]; every suffix table has the prefixes {none, K, M, G, T, "
     "P} (Ki.. for binary) in that order followed by one unit. R18.2 DisplayThroughput: count == 0 selects the constant 0 "
     "on the branch that avoids the division; counter kind <-> ScaleFormat pairing by name; each ScaleFormat arm of "
-    "Scale::suffix uses the table of its own unit. The truncation rule itself, float rounding, exponent notation and "
-    "panic-freedom over all u128 are value computations and are NOT claimed.")
-NOT_DECIDED = ["the truncation rule (format_f64's string surgery)", "rounding of the float path, absence of exponent notation",
-               "panic-freedom of formatting over all u128 / f64 values"]
+    "Scale::suffix uses the table of its own unit. R18.3 (value-expression rule over lib/symexpr.py normal forms, robust "
+    "to renaming, temporaries and re-association) format_f64: the returned string originates in val.to_string() "
+    "(Display without precision - exact, never rounds), is assigned once and mutated only by String::truncate, so the "
+    "result is a prefix of the exact rendering; the cut positions are truncate(dot) when saturating_sub(sig_figs, dot) "
+    "== 0 or when every byte of str[dot+1 .. dot+1+that] is '0', and truncate(window_end - index of the first non-'0' "
+    "byte from the end) otherwise. R18.4 FineDuration::fmt: format_f64 receives ((picos*10^p)/unit) as f64 / 10^p as "
+    "f64 with p the same precision that format_f64 cuts at (integer division truncates before the float conversion), "
+    "the unit that scales is the unit whose suffix is printed and comes from from_picos(self.picos) (+ sub-ns "
+    "override); the integer path prints picos / DAY and is taken exactly when picos >= DAY.checked_mul(multiple). "
+    "Double-precision rounding of the quotient, exponent notation and panic-freedom over all u128 are value "
+    "computations and are NOT claimed.")
+NOT_DECIDED = ["double-precision rounding of the float path (the property itself allows it for sizes/throughputs), absence of exponent notation",
+               "panic-freedom of formatting over all u128 / f64 values (picos * multiple can overflow for precisions far above the 4 divan uses)"]
 
 UNITS = ["PicoSec", "NanoSec", "MicroSec", "MilliSec", "Sec", "Min", "Hour", "Day"]
 PICOS = [1, 10 ** 3, 10 ** 6, 10 ** 9, 10 ** 12, 60 * 10 ** 12, 3600 * 10 ** 12, 86400 * 10 ** 12]
@@ -348,6 +357,232 @@ def r18_2(ctx, prog, crate):
         ctx.check(vs == {"Decimal"}, "R18.2", ["ScaleFormat::bytes_format", "non-byte-units-are-decimal"], "non-byte units scale with %s" % sorted(vs), fb.where(0))
 
 
+def _mut_ref_uses(b, local):
+    """(call, arg_index) for every call that receives a `&mut <local>` (directly or through single-def reborrows);
+    second result: other uses of such a reference (stored, returned, dereferenced for writing)."""
+    refs = set()
+    for bi, si, s in b.stmts():
+        if s["k"] == "assign" and s["rv"]["k"] in ("ref", "rawptr") and s["rv"]["p"]["l"] == local and not any(p["k"] == "deref" for p in s["rv"]["p"]["proj"]) \
+                and (s["rv"]["k"] == "rawptr" or s["rv"].get("mut")):
+            refs.add(s["p"]["l"])
+    grew = True
+    while grew:
+        grew = False
+        for bi, si, s in b.stmts():
+            if s["k"] == "assign" and not s["p"]["proj"] and s["p"]["l"] not in refs:
+                rv = s["rv"]
+                src = None
+                if rv["k"] == "use" and rv["o"]["k"] in ("copy", "move"):
+                    src = rv["o"]["p"]
+                elif rv["k"] in ("ref", "rawptr"):
+                    src = rv["p"]
+                if src is not None and src["l"] in refs and all(p["k"] == "deref" for p in src["proj"]):
+                    refs.add(s["p"]["l"])
+                    grew = True
+    uses = []
+    for c in b.live_calls():
+        for i, a in enumerate(c.args):
+            if a["k"] in ("copy", "move") and a["p"]["l"] in refs and not a["p"]["proj"]:
+                uses.append((c, i))
+    writes = [(bi, si) for bi, si, s in b.stmts() if s["k"] == "assign" and s["p"]["l"] in refs and s["p"]["proj"]]
+    return refs, uses, writes
+
+
+def r18_3(ctx, prog, crate):
+    """format_f64 returns a prefix of the exact decimal rendering of its argument, cut at the documented position."""
+    from lib.symexpr import Sym, show, add
+    b = prog.body("util::fmt::format_f64", crate)
+    if not ctx.anchor("R18.3", "util::fmt::format_f64", 1 if b else 0, 1):
+        return
+    ctx.saw(b)
+    S = Sym(b, site_args=True)
+    # (1) the returned string is the Display rendering of `val` (no precision: Display for f64 without precision is exact)
+    ret = origins(b, {"k": "move", "p": {"l": 0, "proj": [], "ty": ""}})
+    calls = [o[1] for o in ret if o[0] == "call"]
+    ok = len(ret) == 1 and len(calls) == 1 and calls[0].callee.endswith("ToString>::to_string")
+    if ok:
+        a0 = S.op(calls[0].args[0])
+        ok = a0 == ("arg", 1, ())
+    if not ctx.check(ok, "R18.3", ["format_f64", "digits-are-exact-display-of-val"],
+                     "the returned string does not originate in `val.to_string()` (origins: %s); a rendering with a precision rounds to nearest instead of truncating"
+                     % [o[1].callee if o[0] == "call" else o[0] for o in ret], b.where(0)):
+        return
+    ts = calls[0]
+    sl = ts.dest["l"]
+    defs = b.prov.defs.get(sl, [])
+    ctx.check(len(defs) == 1, "R18.3", ["format_f64", "string-assigned-once"], "the digit string is assigned %d times" % len(defs), ts.line())
+    # (2) the only mutation is String::truncate (the result is a prefix)
+    refs, uses, writes = _mut_ref_uses(b, sl)
+    bad = [c.callee for c, i in uses if c.callee != "std::string::String::truncate"]
+    ctx.check(not bad and not writes, "R18.3", ["format_f64", "only-truncated"],
+              "the digit string is modified by %s (only String::truncate keeps it a prefix of the exact rendering)" % (sorted(set(bad)) or "direct writes"), b.where(0))
+    trunc = [c for c, i in uses if c.callee == "std::string::String::truncate" and i == 0]
+    # (3) cut positions
+    finds = [c for c in b.live_calls() if c.callee == "core::str::find"]
+    ok = len(finds) == 1 and const_int(finds[0].args[1]) == ord(".")
+    if not ctx.check(ok, "R18.3", ["format_f64", "finds-decimal-point"], "no single `str.find('.')`", b.where(0)):
+        return
+    D = ("payload", "Some", 0, S.local(finds[0].dest["l"]))
+    ctx.check(_derives_from_string(b, S, finds[0].args[0], ts), "R18.3", ["format_f64", "find-on-the-string"], "`find('.')` is not applied to the digit string", finds[0].line())
+    F = ("call", "core::num::saturating_sub", (("arg", 2, ()), D))
+    fm = [c for c in b.live_calls() if c.callee.endswith("Iterator::find_map")]
+    gets = [c for c in b.live_calls() if c.callee == "core::str::get"]
+    if not ctx.check(len(fm) == 1 and len(gets) == 1, "R18.3", ["format_f64", "fraction-scan"], "find_map sites: %d, str::get sites: %d" % (len(fm), len(gets)), b.where(0)):
+        return
+    Z = ("payload", "Some", 0, S.local(fm[0].dest["l"]))
+    want_range = ("adt", "std::ops::Range", "Range", (add(D, ("int", 1)), add(add(D, ("int", 1)), F)))
+    got_range = S.op(gets[0].args[1])
+    ctx.check(got_range == want_range and _derives_from_string(b, S, gets[0].args[0], ts), "R18.3", ["format_f64", "fraction-window"],
+              "the fraction window is %s, expected str[dot+1 .. dot+1+saturating_sub(sig_figs, dot)]" % show(got_range), gets[0].line(), detail=show(got_range))
+    # the scan walks the window's bytes from the end
+    chain = []
+    e = S.op(fm[0].args[0])
+    while e[0] == "site":
+        chain.append(e[1].rsplit("::", 1)[-1])
+        e = e[3][0] if len(e) > 3 and e[3] else ("opaque", "")
+    G = ("payload", "Some", 0, S.local(gets[0].dest["l"]))
+    ctx.check(chain == ["enumerate", "rev", "bytes"] and e == G, "R18.3", ["format_f64", "scan-from-the-end"],
+              "find_map runs over %s of %s, expected window.bytes().rev().enumerate()" % (chain, show(e)), fm[0].line())
+    # closure: Some(i) iff byte != b'0'
+    cl = [x for x in prog.children(b) if x.kind == "Closure"]
+    if ctx.check(len(cl) == 1, "R18.3", ["format_f64", "scan-closure"], "closures: %d" % len(cl), b.where(0)):
+        c = cl[0]
+        ctx.saw(c)
+        SC = Sym(c)
+        hit = None
+        for bi, t in c.switches():
+            e = SC.op(t["discr"])
+            if e == ("cmp", "Lt", ("int", 48), ("arg", 2, (1,))):  # `b > b'0'`: same test on a window of decimal digits
+                e = ("cmp", "Ne", e[2], e[3])
+            if e[0] == "cmp" and e[1] in ("Ne", "Eq") and {e[2], e[3]} == {("arg", 2, (1,)), ("int", 48)}:
+                arms, otherwise = tables.arm_targets(t)
+                f_t = arms.get(0, otherwise)
+                t_t = otherwise if 0 in arms else None
+                hit = (bi, e[1], t_t, f_t)
+        if ctx.check(hit is not None and hit[2] is not None, "R18.3", ["format_f64", "scan-closure", "tests-byte-against-'0'"], "no `byte != b'0'` test in the scan closure", c.where(0)):
+            bi, op, t_t, f_t = hit
+            nz, z = (t_t, f_t) if op == "Ne" else (f_t, t_t)
+
+            def ret_of(start, other):
+                out = []
+                for y in tables.exclusive_blocks(c, start, [other]):
+                    for s in c.blocks[y]["stmts"]:
+                        if s["k"] == "assign" and s["p"]["l"] == 0 and not s["p"]["proj"]:
+                            out.append(SC.rv(s["rv"]))
+                return out
+            rn, rz = ret_of(nz, z), ret_of(z, nz)
+            ok = len(rn) == 1 and rn[0][0] == "adt" and rn[0][2] == "Some" and rn[0][3] == (("arg", 2, (0,)),) and len(rz) == 1 and rz[0][0] == "adt" and rz[0][2] == "None"
+            ctx.check(ok, "R18.3", ["format_f64", "scan-closure", "first-nonzero-from-end"], "closure returns %s for a non-'0' byte and %s for '0' (expected Some(index) / None)" %
+                      ([show(x) for x in rn], [show(x) for x in rz]), c.where(bi))
+    # truncate sites: truncate(dot) when no fraction digit may stay or all of them are '0'; truncate(end - trailing zeros) otherwise
+    want_cut = add(add(add(D, ("int", 1)), F), Z, -1)
+    sw_f = sw_z = None
+    for bi, t in b.switches():
+        e = S.op(t["discr"])
+        if e[0] == "cmp" and e[1] == "Eq" and {e[2], e[3]} == {F, ("int", 0)}:
+            arms, otherwise = tables.arm_targets(t)
+            sw_f = (arms.get(0, otherwise), otherwise)          # (false target, true target)
+        if e == ("discr", S.local(fm[0].dest["l"])):
+            arms, otherwise = tables.arm_targets(t)
+            sw_z = (arms.get(1, otherwise), arms.get(0, otherwise))  # (Some, None)
+    if not ctx.check(sw_f is not None and sw_z is not None, "R18.3", ["format_f64", "cut-cases"], "missing `fract_digits == 0` test or match on the scan result", b.where(0)):
+        return
+    zero_region = tables.exclusive_blocks(b, sw_f[1], [sw_f[0]])
+    none_region = tables.exclusive_blocks(b, sw_z[1], [sw_z[0]])
+    some_region = tables.exclusive_blocks(b, sw_z[0], [sw_z[1]])
+    seen = {"dot@no-fraction-digits": 0, "dot@all-zero": 0, "end-minus-zeros": 0}
+    for c in trunc:
+        e = S.op(c.args[1])
+        if e == D and c.bb in zero_region:
+            seen["dot@no-fraction-digits"] += 1
+        elif e == D and c.bb in none_region:
+            seen["dot@all-zero"] += 1
+        elif e == want_cut and c.bb in some_region:
+            seen["end-minus-zeros"] += 1
+        else:
+            ctx.fail("R18.3", ["format_f64", "cut-position"], "truncate(%s) is neither truncate(dot) [no fraction digits kept / all kept digits are '0'] nor "
+                     "truncate(window_end - trailing_zeros) [otherwise]" % show(e), c.line())
+    ctx.check(all(v == 1 for v in seen.values()), "R18.3", ["format_f64", "three-cut-cases"], "cut cases present: %s (each expected once)" % seen, b.where(0), detail=seen)
+
+
+def _derives_from_string(b, S, op, ts):
+    """operand is the digit string itself, a reference to it, or `Deref::deref(&string)`."""
+    e = S.op(op)
+    want = S.local(ts.dest["l"])
+    for _ in range(4):
+        if e == want:
+            return True
+        if e[0] == "site" and e[1].endswith("Deref>::deref") and len(e) > 3:
+            e = e[3][0]
+            continue
+        break
+    return e == want
+
+
+def r18_4(ctx, prog, crate):
+    """FineDuration's Display hands format_f64 the exact value truncated (by integer division) to sig_figs decimals."""
+    from lib.symexpr import Sym, show, mul
+    b = prog.body("<time::fine_duration::FineDuration as std::fmt::Display>::fmt", crate)
+    if not ctx.anchor("R18.4", "Display for FineDuration", 1 if b else 0, 1):
+        return
+    ctx.saw(b)
+    S = Sym(b, keep_casts=True, site_args=True)
+    ff = [c for c in b.live_calls() if c.callee == "util::fmt::format_f64"]
+    pw = [c for c in b.live_calls() if c.callee == "core::num::saturating_pow"]
+    pc = [c for c in b.live_calls() if c.callee == "time::fine_duration::TimeScale::picos"]
+    sf = [c for c in b.live_calls() if c.callee == "time::fine_duration::TimeScale::suffix"]
+    fp = [c for c in b.live_calls() if c.callee == "time::fine_duration::TimeScale::from_picos"]
+    if not ctx.check(len(ff) == 1 and len(pw) == 1 and len(pc) == 1 and len(sf) == 1 and len(fp) == 1, "R18.4", ["FineDuration::fmt", "sites"],
+                     "format_f64 x%d saturating_pow x%d TimeScale::picos x%d suffix x%d from_picos x%d" % (len(ff), len(pw), len(pc), len(sf), len(fp)), b.where(0)):
+        return
+    P = ("arg", 1, ("picos",))
+    M = S.local(pw[0].dest["l"])
+    ctx.check(M[0] == "call" and M[2][0] == ("int", 10), "R18.4", ["FineDuration::fmt", "multiple-is-power-of-ten"], "multiple = %s" % show(M), pw[0].line())
+    sig = S.op(ff[0].args[1])
+    # the exponent is the precision handed to format_f64 (through try_from/unwrap_or)
+    e = M[2][1] if M[0] == "call" else ("opaque", "")
+    chain = []
+    while e[0] in ("site", "cast") and e != sig:
+        if e[0] == "cast":
+            e = e[2]
+            continue
+        chain.append(e[1].rsplit("::", 1)[-1])
+        e = e[3][0] if len(e) > 3 and e[3] else ("opaque", "")
+    ctx.check(e == sig and set(chain) <= {"unwrap_or", "try_from"}, "R18.4", ["FineDuration::fmt", "same-precision-for-scaling-and-cut"],
+              "10^x uses x = %s via %s, but format_f64 cuts at %s" % (show(e), chain, show(sig)), pw[0].line())
+    U = S.local(pc[0].dest["l"])
+    want = ("div", ("cast", "f64", ("div", mul(P, M), U)), ("cast", "f64", M))
+    got = S.op(ff[0].args[0])
+    ctx.check(got == want, "R18.4", ["FineDuration::fmt", "value-truncated-by-integer-division"],
+              "format_f64 receives %s, expected ((picos * multiple) / scale.picos()) as f64 / multiple as f64" % show(got), ff[0].line(), detail=show(got))
+    # the unit used for scaling is the unit whose suffix is printed, and it was chosen from this value
+    a_p, a_s = S.op(pc[0].args[0]), S.op(sf[0].args[0])
+    ctx.check(a_p == a_s and a_p[0] == "phi", "R18.4", ["FineDuration::fmt", "suffix-of-the-scaling-unit"], "scaled by %s, suffix of %s" % (show(a_p), show(a_s)), sf[0].line())
+    if a_p[0] == "phi":
+        srcs = {o[1].callee if o[0] == "call" else ("variant:" + o[1].get("variant", "?") if o[0] == "rvalue" and o[1]["k"] == "agg" else o[0])
+                for o in origins(b, pc[0].args[0])}
+        ctx.check(srcs == {"time::fine_duration::TimeScale::from_picos", "variant:NanoSec"}, "R18.4", ["FineDuration::fmt", "unit-chosen-from-value"],
+                  "the unit comes from %s, expected from_picos(self.picos) with the sub-nanosecond -> ns override" % sorted(srcs), pc[0].line())
+    ctx.check(S.op(fp[0].args[0]) == P, "R18.4", ["FineDuration::fmt", "unit-chosen-from-value", "of-self.picos"], "from_picos(%s)" % show(S.op(fp[0].args[0])), fp[0].line())
+    # integer path: picos / DAY printed when picos >= DAY * multiple
+    tsx = [c for c in b.live_calls() if c.callee.endswith("ToString>::to_string")]
+    if ctx.check(len(tsx) == 1, "R18.4", ["FineDuration::fmt", "integer-path"], "to_string sites: %d" % len(tsx), b.where(0)):
+        DAY = 86400 * 10 ** 12
+        got = S.op(tsx[0].args[0])
+        ctx.check(got == ("div", P, ("int", DAY)), "R18.4", ["FineDuration::fmt", "integer-path", "whole-days"], "integer path prints %s" % show(got), tsx[0].line())
+        lim = ("payload", "Some", 0, ("call", "core::num::checked_mul", (("int", DAY), M)))
+        guard = [bi for bi, t in b.switches() if S.op(t["discr"]) in (("cmp", "Le", lim, P),)]
+        ok = len(guard) == 1
+        if ok:
+            t = b.term(guard[0])
+            arms, otherwise = tables.arm_targets(t)
+            ok = tsx[0].bb in tables.exclusive_blocks(b, otherwise, [arms.get(0, otherwise)]) and ff[0].bb not in b.reach([otherwise], avoid=[arms.get(0, otherwise)])
+        ctx.check(ok, "R18.4", ["FineDuration::fmt", "integer-path", "only-from-DAY*multiple"], "the integer path is not guarded by picos >= DAY.checked_mul(multiple)", tsx[0].line())
+    ctx.note("R18.4 value argument: q = floor(picos*10^s / unit) is exact integer arithmetic; q / 10^s as f64 then has at most s decimals and format_f64 only truncates")
+
+
 def run(ctx, prog, crate):
     r18_1(ctx, prog, crate)
     r18_2(ctx, prog, crate)
+    r18_3(ctx, prog, crate)
+    r18_4(ctx, prog, crate)
